@@ -133,6 +133,7 @@ fn c04_constructors_componentwise() {
 
 // ---------- lemmas (on the real functions) ----------
 #[kani::proof]
+#[kani::solver(z3)]
 fn c04_lemma_cost_additive() {
     let (a, b) = (any_cost(), any_cost());
     kani::assume(comb_pre(&a, &b, 1) && cost_pre(&a) && cost_pre(&b) && cost_pre(&ConstCost {
@@ -141,6 +142,7 @@ fn c04_lemma_cost_additive() {
     assert!(a.add(b).cost() as i128 == a.cost() as i128 + b.cost() as i128, "C04 cost(a.add(b)) == cost(a) + cost(b)");
 }
 #[kani::proof]
+#[kani::solver(cvc5)]
 fn c04_lemma_cost_subtractive() {
     let (a, b) = (any_cost(), any_cost());
     kani::assume(comb_pre(&a, &b, -1) && cost_pre(&a) && cost_pre(&b) && cost_pre(&ConstCost {
